@@ -15,6 +15,9 @@
      PListing a    inside `await self._get_running_jobs(..)` on a cache miss: squeue -j a is in flight, lock held
      PSleeping     inside `await asyncio.sleep(pollingInterval)`
      PDone         left the loop (popped from _scheduled_jobs)
+     PFailed       the pop raised KeyError: undeploy() had replaced _scheduled_jobs
+   undeploy() (one call) is a fourth kind of task: snapshot of _scheduled_jobs, scancel of the snapshot, then
+   `self._scheduled_jobs = {}`; its three stretches interleave freely with the jobs.
    An action is one atomic stretch of one task between two suspensions (or an external event: a job leaves the
    queue, the TTL expires).  The lock is abstracted to "free or held": a task may always choose to wait, and may
    take the lock whenever it is free; asyncio.Lock's FIFO hand-over only removes behaviours.  The stretches
@@ -28,37 +31,44 @@ From Coq Require Import List Bool Arith Lia.
 From SF Require Import Queue.Model Queue.Proofs.
 Import ListNotations.
 
-Inductive pc := PInit | PSubmitting | PWaitClear | PPollWait | PListing (a : list nat) | PSleeping | PDone.
+Inductive pc := PInit | PSubmitting | PWaitClear | PPollWait | PListing (a : list nat) | PSleeping | PDone
+              | PFailed.   (* `_scheduled_jobs.pop(job_id)` raised KeyError (after undeploy replaced the dictionary) *)
+(* program counter of the (single) undeploy() call: before it / scancel of the snapshot created and in flight /
+   scancel answered, gather about to return / `_scheduled_jobs = {}` done *)
+Inductive upc := UInit | UCancelling (ids : list nat) | UCancelled | UDone.
 
 Record cst := mkC { cq : list nat; csched : list nat; ccache : option (list nat); clock : option nat;
-                    cpc : nat -> pc }.
+                    cpc : nat -> pc; csnap : option (list nat); cund : upc }.
 
 Inductive act :=
 | ASubmit (j : nat) | ASubmitRet (j : nat) | AClear (j : nat) | APoll (j : nat) | AListRet (j : nat)
-| AWake (j : nat) | ALeave (j : nat) | AExpire.
+| AWake (j : nat) | ALeave (j : nat) | AExpire
+| AUndStart | ACancel | AUndEnd.       (* undeploy(): snapshot / scancel executes / gather returns, dictionary replaced *)
 
 Definition upd (f : nat -> pc) (j : nat) (p : pc) : nat -> pc := fun k => if k =? j then p else f k.
 
 (* leave the loop or go to sleep, according to a listing l *)
 Definition decide (c : cst) (j : nat) (l : list nat) : cst * list event :=
-  if mem j l then (mkC (cq c) (csched c) (ccache c) (clock c) (upd (cpc c) j PSleeping), [])
-  else (mkC (cq c) (del j (csched c)) (ccache c) (clock c) (upd (cpc c) j PDone), [Unrecord j]).
+  if mem j l then (mkC (cq c) (csched c) (ccache c) (clock c) (upd (cpc c) j PSleeping) (csnap c) (cund c), [])
+  else if mem j (csched c)
+  then (mkC (cq c) (del j (csched c)) (ccache c) (clock c) (upd (cpc c) j PDone) (csnap c) (cund c), [Unrecord j])
+  else (mkC (cq c) (csched c) (ccache c) (clock c) (upd (cpc c) j PFailed) (csnap c) (cund c), [PopMissing j]).
 
 Definition cstep (c : cst) (a : act) : option (cst * list event) :=
   match a with
   | ASubmit j =>
       match cpc c j with
-      | PInit => Some (mkC (cq c ++ [j]) (csched c) (ccache c) (clock c) (upd (cpc c) j PSubmitting), [Submit j])
+      | PInit => Some (mkC (cq c ++ [j]) (csched c) (ccache c) (clock c) (upd (cpc c) j PSubmitting) (csnap c) (cund c), [Submit j])
       | _ => None
       end
   | ASubmitRet j =>
       match cpc c j with
-      | PSubmitting => Some (mkC (cq c) (csched c ++ [j]) (ccache c) (clock c) (upd (cpc c) j PWaitClear), [Record j])
+      | PSubmitting => Some (mkC (cq c) (csched c ++ [j]) (ccache c) (clock c) (upd (cpc c) j PWaitClear) (csnap c) (cund c), [Record j])
       | _ => None
       end
   | AClear j =>
       match cpc c j, clock c with
-      | PWaitClear, None => Some (mkC (cq c) (csched c) None None (upd (cpc c) j PPollWait), [ClearBy j])
+      | PWaitClear, None => Some (mkC (cq c) (csched c) None None (upd (cpc c) j PPollWait) (csnap c) (cund c), [ClearBy j])
       | _, _ => None
       end
   | APoll j =>
@@ -66,7 +76,7 @@ Definition cstep (c : cst) (a : act) : option (cst * list event) :=
       | PPollWait, None =>
           match ccache c with
           | Some l => Some (decide c j l)                       (* cache hit: lock taken and released at once *)
-          | None => Some (mkC (cq c) (csched c) None (Some j) (upd (cpc c) j (PListing (csched c))),
+          | None => Some (mkC (cq c) (csched c) None (Some j) (upd (cpc c) j (PListing (csched c))) (csnap c) (cund c),
                           [ListStart (csched c)])
           end
       | _, _ => None
@@ -75,18 +85,41 @@ Definition cstep (c : cst) (a : act) : option (cst * list event) :=
       match cpc c j with
       | PListing a =>
           let r := filter (fun k => mem k (cq c)) a in
-          let c1 := mkC (cq c) (csched c) (Some r) None (cpc c) in
+          let c1 := mkC (cq c) (csched c) (Some r) None (cpc c) (csnap c) (cund c) in
           let (c2, evs) := decide c1 j r in Some (c2, Listing a r :: evs)
       | _ => None
       end
   | AWake j =>
       match cpc c j with
-      | PSleeping => Some (mkC (cq c) (csched c) (ccache c) (clock c) (upd (cpc c) j PPollWait), [])
+      | PSleeping => Some (mkC (cq c) (csched c) (ccache c) (clock c) (upd (cpc c) j PPollWait) (csnap c) (cund c), [])
       | _ => None
       end
   | ALeave j =>
-      if mem j (cq c) then Some (mkC (del j (cq c)) (csched c) (ccache c) (clock c) (cpc c), [Leave j]) else None
-  | AExpire => Some (mkC (cq c) (csched c) None (clock c) (cpc c), [Expire])
+      if mem j (cq c) then Some (mkC (del j (cq c)) (csched c) (ccache c) (clock c) (cpc c) (csnap c) (cund c), [Leave j])
+      else None
+  | AExpire => Some (mkC (cq c) (csched c) None (clock c) (cpc c) (csnap c) (cund c), [Expire])
+  | AUndStart =>
+      match cund c with
+      | UInit =>
+          match csched c with
+          | [] => (* nothing to cancel: gather() of nothing does not suspend, the dictionary is replaced at once *)
+                  Some (mkC (cq c) [] (ccache c) (clock c) (cpc c) (Some []) UDone, [UndeployStart; UndeployEnd])
+          | ids => Some (mkC (cq c) (csched c) (ccache c) (clock c) (cpc c) (Some ids) (UCancelling ids), [UndeployStart])
+          end
+      | _ => None
+      end
+  | ACancel =>
+      match cund c with
+      | UCancelling ids =>
+          Some (mkC (filter (fun x => negb (mem x ids)) (cq c)) (csched c) (ccache c) (clock c) (cpc c) (csnap c) UCancelled,
+                [Cancel ids])
+      | _ => None
+      end
+  | AUndEnd =>
+      match cund c with
+      | UCancelled => Some (mkC (cq c) [] (ccache c) (clock c) (cpc c) (csnap c) UDone, [UndeployEnd])
+      | _ => None
+      end
   end.
 
 (* an execution: actions that are not enabled are skipped *)
@@ -99,4 +132,4 @@ Fixpoint cexec (c : cst) (acts : list act) : cst * list event :=
               end
   end.
 
-Definition c0 : cst := mkC [] [] None None (fun _ => PInit).
+Definition c0 : cst := mkC [] [] None None (fun _ => PInit) None UInit.
